@@ -165,6 +165,18 @@ CHECKS = [
              "falling back to MLSD and to LIST.",
      "design_ref": "DESIGN.md §5 C07", "note": ENV_NOTE,
      "technique": "bounded-exhaustive grid enumeration of formatter-parser composition + exhaustive wire cases with a spy backend"},
+    {"property_id": "C15", "level": "model_checking",
+     "text": "API: every sequence of length <= 2 (3 for one configuration; thorough 3 everywhere) over the 36-symbol "
+             "(chunk, I/O duration, idle gap) alphabet through the real ThrottleStreamIO on a virtual clock for L in "
+             "{8, 1024}, reset_rate in {1, 10}, both directions; two throttles on one stream; limit None/0/opposite; "
+             "limit setter and clone() at every position; two concurrent streams sharing or cloning a throttle - I/O "
+             "start times compared exactly with the arithmetic reference max(request, t0 + bytes/L). End-to-end: each "
+             "of the five limit levels alone and all ordered pairs x direction x (1..3 connections, 1..2 users) x sizes "
+             "with the real client and server at zero latency: cumulative-rate bound at every observed I/O of the "
+             "limit-sharing group, finish time within the bound from both sides, independence of unrelated groups, and "
+             "no dependence on the data volume when only the opposite direction is limited.",
+     "design_ref": "DESIGN.md §5 C15", "note": ENV_NOTE,
+     "technique": "bounded-exhaustive enumeration of operation sequences in virtual time against an arithmetic reference model"},
 ]
 
 _ALL = [f"C{i:02d}" for i in range(1, 21)]
